@@ -472,10 +472,11 @@ pub(crate) fn created(stat: &Stat) -> SystemTime {
 
 #[allow(clippy::cast_sign_loss)] // Checked.
 fn timestamp(ts: &libc::statx_timestamp) -> SystemTime {
-    let dur = Duration::new(ts.tv_sec as u64, ts.tv_nsec);
+    // NOTE: `tv_nsec` always counts forward, also for times before the epoch.
+    let nanos = Duration::new(0, ts.tv_nsec);
     if ts.tv_sec.is_negative() {
-        SystemTime::UNIX_EPOCH - dur
+        SystemTime::UNIX_EPOCH - Duration::from_secs(ts.tv_sec.unsigned_abs()) + nanos
     } else {
-        SystemTime::UNIX_EPOCH + dur
+        SystemTime::UNIX_EPOCH + Duration::from_secs(ts.tv_sec as u64) + nanos
     }
 }
